@@ -282,12 +282,16 @@ def trapSet (env : Env) (cond : Nat) (a : TrapAct) : Env :=
     | .dflt => .default
     | .ign => .ignore
     | .cmd n => .command n
-  let r := Trap.setAction { sys := env.system.sys, traps := env.traps } cond act 0 false
+  -- `override_ignore = env.options.get(Interactive) == On` (the option, also inside subshells)
+  let r := Trap.setAction { sys := env.system.sys, traps := env.traps } cond act 0 (env.options.contains "interactive")
   { env with traps := r.1.traps, system := { env.system with sys := r.1.sys } }
 
 /-- the signal effect of the virtual system for the signals of the sweep (`SignalEffect::of`): SIGURG is
     discarded by default, the others terminate -/
 def fatalByDefault (sig : Nat) : Bool := sig != SIGURG
+
+/-- SIGKILL can be neither caught nor ignored -/
+def SIGKILL : Nat := Trap.SIGKILL
 
 /-- the command id of the trap that runs when `sig` is caught -/
 def trapCommandOf (env : Env) (sig : Nat) : Option Nat :=
@@ -379,12 +383,14 @@ def getTty (env : Env) : Env :=
              system := { env.system with fds := fdPut env.system.fds fd { label := "tty", cloexec := true } } }
 
 /-- the `set` built-in after changing `monitor` outside a subshell ("reinitialize job control"): the shell is
-    not interactive, so the internal dispositions for the stop signals are *disabled*
-    (`update_internal_dispositions_for_stoppers`), and with `monitor` now on `ensure_foreground` opens the
+    internal dispositions for the stop signals are enabled iff the `interactive` and `monitor` options are both
+    on, disabled otherwise (`update_internal_dispositions_for_stoppers`), and with `monitor` now on `ensure_foreground` opens the
     terminal (`tcsetpgrp` itself changes nothing the property names) -/
 def monitorChanged (o : String) (env : Env) : Env :=
   if o ≠ "monitor" || env.stack.contains "Subshell" then env else
-  let st := Trap.disableStoppers { sys := env.system.sys, traps := env.traps }
+  let st0 : Trap.State := { sys := env.system.sys, traps := env.traps }
+  let st := if env.options.contains "interactive" && env.options.contains "monitor"
+    then Trap.enableStoppers st0 else Trap.disableStoppers st0
   let e1 := { env with traps := st.traps, system := { env.system with sys := st.sys } }
   if e1.options.contains "monitor" then getTty e1 else e1
 
@@ -445,6 +451,7 @@ def applyOpCore (sh : Shell) (op : Op) : Shell :=
     { sh with env := { env with functions := env.functions.put "lf" (n ++ "." ++ v) },
               events := sh.events ++ ["L:" ++ v] }
   | .raise sig =>
+    if sig = SIGKILL then { sh with halted := some (384 + sig) } else
     match env.system.sys.disp sig with
     | .catch => match trapCommandOf env sig with
       | some n => { sh with events := sh.events ++ [s!"T{n}"] }
@@ -579,10 +586,40 @@ def startKind {β : Type} (copied : List (String × String)) (k : Kind) (jc : Bo
 
 /-- what follows the subshell command in the parent: with `errexit` a non-zero status ends the shell before
     `probe ST` runs; otherwise the status is printed -/
-def finishKind (k : Kind) (out : Shell) (st : Nat) : Shell :=
+def finishKind (k : Kind) (out : Shell) (st : Nat) (intr : Option Nat) : Shell :=
   if out.halted.isSome then out
-  else if st ≠ 0 ∧ out.env.options.contains "errexit" then exitShell out st
-  else { out with events := out.events ++ (if k == .subst then [s!"sub:0", s!"st:{st}"] else [s!"st:{st}"]) }
+  else match intr with
+    | some s => exitShell out s       -- `Divert::Interrupt(Some(status))`: the command line is abandoned
+    | none =>
+      if st ≠ 0 ∧ out.env.options.contains "errexit" then exitShell out st
+      else { out with events := out.events ++ (if k == .subst then [s!"sub:0", s!"st:{st}"] else [s!"st:{st}"]) }
+
+/-- `Env::is_interactive`: the `interactive` option is on and the shell is not itself a subshell -/
+def isInteractive (env : Env) : Bool := env.options.contains "interactive" && !env.stack.contains "Subshell"
+
+/-- `Env::sigint_has_default_action`: no trap entry for SIGINT, or its current action is `Default` -/
+def sigintDefault (env : Env) : Bool :=
+  match Trap.get env.traps SIGINT with
+  | none => true
+  | some g => g.current.action == .default
+
+/-- the constructs whose wait ends in the SIGINT rule: `( )` and a job-controlled pipeline
+    (`job::handle_job_status`), and a command substitution (`expand_common`); not a plain pipeline, not `&` -/
+def interruptsOnSigint (k : Kind) (jc : Bool) : Bool :=
+  match k with
+  | .paren => true
+  | .subst => true
+  | .async => false
+  | _ => jc
+
+/-- The documented exception to "the parent observes only the exit status": in an *interactive* shell
+    (`is_interactive`: option on AND not in a subshell) whose SIGINT action is the default, a subshell that was
+    killed by SIGINT interrupts the command line (`Divert::Interrupt(Some(384 + SIGINT))`).  `status` is the
+    status of the awaited process; a status of `384 + sig` always means "killed by `sig`" here because a shell
+    whose `$?` is such a status ends by re-raising the signal (`exit_or_raise`). -/
+def interruptedBy (k : Kind) (jc : Bool) (env : Env) (status : Nat) : Option Nat :=
+  if status == 384 + SIGINT && interruptsOnSigint k jc && isInteractive env && sigintDefault env
+  then some status else none
 
 /-- What the starting shell does *by itself* around a subshell of kind `k`, from its environment `env` as
     restored after the fork: nothing for the synchronous kinds; an asynchronous list is remembered as a job and
@@ -592,6 +629,12 @@ def parentSide (k : Kind) (env : Env) (during : List Op) : Shell :=
   let p0 := applyOps { env := e0 } (if k == .async then during else [])
   if k == .async then { p0 with env := { p0.env with jobs := p0.env.jobs.removeLast } } else p0
 
+/-- what the child process of a subshell of kind `k` started from `sh` makes of `body` (its final state, its
+    output, whether it was killed) -/
+def childShell (copied : List (String × String)) (k : Kind) (sh : Shell) (body : Shell → Shell) : Shell :=
+  (startKind copied k (controlsJobs sh.env) sh.env
+    fun c => runExitTrap (body { env := plumb k (controlsJobs sh.env) c })).2
+
 /-- Runs `body` in a subshell of kind `k` started from the live shell `sh`; `during` are the parent's own
     mutators between `&` and `wait` (asynchronous lists only).  The child's output comes first in the
     event list of the result because the parent prints nothing until it has waited. -/
@@ -600,14 +643,20 @@ def runKind (copied : List (String × String)) (k : Kind) (sh : Shell) (body : S
   if sh.halted.isSome then sh else
   let jc := controlsJobs sh.env
   let r : Env × Shell := startKind copied k jc sh.env fun c => runExitTrap (body { env := plumb k jc c })
-  let childSh : Shell := r.2
+  let childSh : Shell := childShell copied k sh body
   -- the child exits with its `$?` (`exit_or_raise`), or was killed
   let childStatus := childSh.halted.getD childSh.env.exitStatus
   let p : Shell := parentSide k r.1 during
   let st := kindStatus k (p.env.options.contains "pipefail") childStatus
+  -- the status of the process the shell actually waited for (the job-control wrapper of a pipeline exits with
+  -- the pipeline's status; `$( )` reports the child's even though the `probe` built-in then keeps `$?`)
+  let waited := if k == .subst then childStatus else st
+  let intr := interruptedBy k jc p.env waited
+  -- an interrupted command substitution never delivers its output: the `probe` that would print it does not run
+  let childEvents := if k == .subst && intr.isSome then [] else childSh.events
   let out : Shell := { env := { p.env with exitStatus := st }, halted := p.halted,
-                       events := sh.events ++ childSh.events ++ p.events }
-  finishKind k out st
+                       events := sh.events ++ childEvents ++ p.events }
+  finishKind k out st intr
 
 /-! ## A whole case -/
 
@@ -645,7 +694,8 @@ def startEnv (c : Case) : Env :=
     | none => e0.system.sys
   let st0 : Trap.State := { sys := sys0, traps := [] }
   let st := if c.internal then Trap.enableStoppers (Trap.enableTerminators st0) else st0
-  { e0 with traps := st.traps, system := { e0.system with sys := st.sys, ttyAvail := c.tty } }
+  { e0 with traps := st.traps, options := if c.internal then insertSorted "interactive" e0.options else e0.options,
+            system := { e0.system with sys := st.sys, ttyAvail := c.tty } }
 
 /-- the innermost body: snapshot `C<d>`, the child's mutators, snapshot `D<d>` -/
 def innerBody (d : Nat) (ops : List Op) (sh : Shell) : Shell :=
